@@ -29,11 +29,11 @@ func (pass *RetypeObject) processObject(_ *Visitor, _ *ast.Schema, object ast.Ob
 
 	trailMessage := fmt.Sprintf("RetypeObject[%s → %s]", ast.TypeName(object.Type), ast.TypeName(pass.As))
 
-	object.Type = pass.As
+	object.Type = pass.As.DeepCopy()
 	object.AddToPassesTrail(trailMessage)
 
 	if pass.Comments != nil {
-		object.Comments = pass.Comments
+		object.Comments = append([]string(nil), pass.Comments...)
 	}
 
 	return object, nil
